@@ -68,6 +68,14 @@ type flowTie struct {
 	fn     *a.Func
 	bad    string // first reason why the function is outside the fragment
 	detail string // debugging aid: the text of the offending node
+
+	// `unify` (the join after an if) compares facts by their TEXT, while the model (like
+	// ast.Expr.Eq) compares constant-valued nodes by value: `x == K0` and `x == 255`, or
+	// `x == (4 - 4)` and `x == 0`, are one fact for the model and two for `unify`.  A
+	// function that has both a join and a constant not written as its plain decimal
+	// value is left out (counted), so that the tie stays exact.
+	nonLiteralConst bool
+	hasIf           bool
 	loops  []*a.While
 	braces map[int]int
 }
@@ -91,6 +99,15 @@ func (z *flowTie) expr(n *a.Expr) string {
 	if n == nil {
 		return z.fail("nil-expression")
 	}
+	n.AsNode().Walk(func(o *a.Node) error {
+		if o.Kind() == a.KExpr {
+			if e := o.AsExpr(); e.ConstValue() != nil && (e.MType() == nil || !e.MType().IsBool()) &&
+				e.Str(z.tm) != e.ConstValue().String() {
+				z.nonLiteralConst = true
+			}
+		}
+		return nil
+	})
 	s, ok := exprSexpr(z.tm, n, nil)
 	if !ok {
 		if z.bad == "" {
@@ -269,6 +286,7 @@ func (z *flowTie) stmt(o *a.Node) string {
 		if n.ElseIf() != nil {
 			return z.fail("else-if-chain")
 		}
+		z.hasIf = true
 		return "if " + z.cond(n.Condition()) + " " + z.block(n.BodyIfTrue()) + " " + z.block(n.BodyIfFalse())
 	case a.KWhile:
 		n := o.AsWhile()
@@ -428,6 +446,9 @@ func flowOps(ck *Checked, src string, factsAt map[int][]*a.Expr, stats map[strin
 		z := &flowTie{tm: ck.tm, funcs: funcs, fn: fn, braces: braces}
 		head := z.header(fn)
 		body := z.block(fn.Body())
+		if z.bad == "" && z.hasIf && z.nonLiteralConst {
+			z.fail("non-literal-constant with-join")
+		}
 		if z.bad != "" {
 			stats["flow:func-outside-fragment"]++
 			if os.Getenv("C01_FLOWDEBUG") != "" {
@@ -515,6 +536,9 @@ func (g *Gen) recordRejectedFunc(src string, err error) {
 			z := &flowTie{tm: g.fr.tm, funcs: funcs, fn: fn, braces: braces}
 			head := z.header(fn)
 			body := z.block(fn.Body())
+			if z.bad == "" && z.hasIf && z.nonLiteralConst {
+				z.fail("non-literal-constant with-join")
+			}
 			if z.bad != "" {
 				g.count("flow:rejected-func-outside-fragment")
 				return
